@@ -16,7 +16,10 @@ calling thread and the tokio runtime that is current on it (`Handle::try_current
 Guards are dropped by whoever holds them: `dropTL` is "drop the `ThreadLocalTestSinkGuard` of the calling
 thread if there is one", `dropRT r` is "drop the `TokioRuntimeTestSinkGuard` of runtime r if there is one",
 `dropAttach`/`forgetAttach` is "drop/forget the live `AttachHandle` if there is one" (`noop` otherwise:
-nothing to drop).
+nothing to drop). *How* a guard or handle comes to be dropped — `drop(x)`, end of scope, or the unwinder of
+a panic that owned it (contained by `catch_unwind` or by joining the panicking thread) — is not part of the
+event: the model has one `drop…` operation for all of them (the driver accepts the harness's `…U` / `…T`
+spellings as aliases), so the theorems about `dropTL` / `dropRT` / `dropAttach` cover drops during unwinding.
 -/
 namespace Global
 
